@@ -13,7 +13,8 @@ for d in sorted(glob.glob(os.path.join(V, "seeded", "C*-*"))):
     fn = (fr.get("function") or "").split("mingus.")[-1]
     src = "deductive" if fr.get("obligation") else ("battery" if fr.get("source") == "bounded stand-in" else "driver")
     print("| %s | %s | %s | %s | %s %s (%s) |" % (os.path.basename(d), ", ".join(f.replace("mingus/", "") for f in files),
-          "yes" if m.get("confirmed") else "NO", ("caught, exit %d" % m["check"]["exit"]) if m.get("caught") else "missed, exit %d" % m["check"]["exit"],
+          "yes" if m.get("confirmed") else "NO", (("caught, exit %d" % m["check"]["exit"]) if m.get("caught") else "missed, exit %d" % m["check"]["exit"]) +
+          (" (first evaluation: missed; see below)" if any(not h.get("caught") for h in m.get("history", [])) and m.get("caught") else ""),
           fn, what, src))
 print()
 p = os.path.join(V, "seeded", "refactors", "results.jsonl")
